@@ -144,7 +144,10 @@ def render(afile):
             line = s['name']
             frame = None
         elif k == 'unsup_shape':
-            line = f"{s['name']}({s['params']})"
+            if s.get('bare'):
+                line = s['name'] + ' ' + s['params'].replace(',', ' ')
+            else:
+                line = f"{s['name']}({s['params']})"
             if s.get('props'):
                 line += ' # ' + s['props']
         elif k == 'global':
